@@ -20,7 +20,8 @@ use core::convert::TryInto;
 use core::cmp::Ordering;
 use core::str::FromStr;
 """
-HEADER = """#![allow(unused_imports, unused_variables, unused_mut, dead_code, unused_parens, unused_braces, non_snake_case, unreachable_code, unused_assignments, non_camel_case_types, non_upper_case_globals)]
+HEADER = """#![feature(allocator_api)]
+#![allow(unused_imports, unused_variables, unused_mut, dead_code, unused_parens, unused_braces, non_snake_case, unreachable_code, unused_assignments, non_camel_case_types, non_upper_case_globals)]
 use vstd::prelude::*;
 use vstd::std_specs::ops::*;
 use vstd::std_specs::cmp::*;
